@@ -75,7 +75,7 @@ Definition run_consts (a : args) : args :=
     flat_map (fun r => flat_map (fun c =>
                  if match c with Some x => memN x (role_input_streams r) | None => true end
                  then match next_input_stream r c with Some x => [x] | None => [0] end
-                 else [888888])                      (* debug_assert in next_input_stream *)
+                 else [18446744073710440504])                      (* debug_assert in next_input_stream *)
                                 [None; Some RT_Stdin; Some RT_Data]) ROLE_VALUES;
     ROLE_OUTPUT_STREAMS;
     [HEADER_LEN; UnknownType_LEN; BeginRequest_LEN; EndRequest_LEN; RESPONSE_LEN; VARINT_MAX; FCGI_NULL_REQUEST_ID;
